@@ -353,4 +353,45 @@ func init() {
 			"conditional element/attribute names (names lists built by join)", "the link rel rule is compared as implemented (any URL-valued token); its weakness is C02's subject"},
 		Intrinsics: []string{"map lookups with symbolic string keys (ite over the keys of equal length / fork per candidate)", "regexp MatchString", "strings.Fields on concrete rel values"},
 	})
+
+	reg(&Prop{
+		ID:    "C02",
+		Title: "Untrusted strings never reach code contexts; URLs never become javascript:",
+		Harnesses: []HarnessSpec{
+			{Pkg: "template", Name: "vHarness_C02_codeattr", Quick: []ParamRange{{"rel", 0, 0}, {"le", 0, 8}, {"la", 2, 8}, {"n", 1, 1}}, Thorough: []ParamRange{{"rel", 0, 0}, {"le", 0, 12}, {"la", 2, 12}, {"n", 0, 3}},
+				Filter: func(p map[string]int) bool { return p["n"] <= 1 || (p["le"] <= 6 && p["la"] <= 6) }, Reach: []string{"code-context", "rejected", "typed"},
+				Desc: "symbolic element and attribute names: where the reference list says 'code context' (on*, style, srcdoc, code-loading URL attributes) the action is rejected or the chain rejects every plain string"},
+			{Pkg: "template", Name: "vHarness_C02_codeattr", Quick: []ParamRange{{"rel", 1, 6}, {"le", 4, 4}, {"la", 4, 4}, {"n", 1, 1}}, Thorough: []ParamRange{{"rel", 1, 6}, {"le", 4, 4}, {"la", 4, 4}, {"n", 0, 3}},
+				Desc: "link/href under six rel values (stylesheet, manifest, modulepreload make it a code context)"},
+			{Pkg: "template", Name: "vHarness_C02_codecontent", Quick: []ParamRange{{"le", 5, 6}, {"n", 0, 3}}, Thorough: []ParamRange{{"le", 5, 6}, {"n", 0, 5}}, Reach: []string{"code-context"},
+				Desc: "script and style element content reject plain strings"},
+			{Pkg: "template", Name: "vHarness_C02_comment", Quick: []ParamRange{{"n", 0, 4}}, Thorough: []ParamRange{{"n", 0, 8}}, Reach: []string{"ran"}, Desc: "data in an HTML comment is dropped"},
+			{Pkg: "template", Name: "vHarness_C02_url1", Quick: []ParamRange{{"ctx", 0, 5}, {"n", 0, 4}}, Thorough: []ParamRange{{"ctx", 0, 5}, {"n", 0, 7}}, Reach: []string{"emitted"},
+				Filter: func(p map[string]int) bool { return p["n"] <= 5 || p["ctx"] == 0 },
+				Desc: "one action at the start of six URL attributes (ASCII data): the decoded value has no javascript scheme; emitted text is HTML-escaped"},
+			{Pkg: "template", Name: "vHarness_C02_url2", Quick: []ParamRange{{"schemechars", 1, 1}, {"ctx", 0, 0}, {"n1", 0, 7}, {"n2", 0, 8}}, Thorough: []ParamRange{{"schemechars", 1, 1}, {"ctx", 0, 5}, {"n1", 0, 11}, {"n2", 0, 11}},
+				Filter: func(p map[string]int) bool { return p["n1"]+p["n2"] <= 13 && (p["ctx"] == 0 || p["n1"]+p["n2"] == 11) }, Reach: []string{"emitted"},
+				Desc: "two adjacent actions in one URL attribute, pieces over scheme characters and ':': the concatenation of the individually sanitized pieces has no javascript scheme"},
+			{Pkg: "template", Name: "vHarness_C02_url2", Quick: []ParamRange{{"schemechars", 0, 0}, {"ctx", 0, 0}, {"n1", 0, 3}, {"n2", 0, 3}}, Thorough: []ParamRange{{"schemechars", 0, 0}, {"ctx", 0, 0}, {"n1", 0, 4}, {"n2", 0, 7}},
+				Filter: func(p map[string]int) bool { return p["n1"]+p["n2"] <= 6 || (p["n1"] == 4 && p["n2"] == 7) },
+				Desc: "two adjacent actions, arbitrary ASCII pieces"},
+			{Pkg: "template", Name: "vHarness_C02_mangle", Quick: []ParamRange{{"relvar", 0, 1}, {"ctx", 0, 5}, {"n1", 0, 2}, {"n2", 0, 2}}, Thorough: []ParamRange{{"relvar", 0, 1}, {"ctx", 0, 5}, {"n1", 0, 3}, {"n2", 0, 3}},
+				Filter: func(p map[string]int) bool { return p["relvar"] == 0 || p["ctx"] == 4 }, Reach: []string{"same-name"},
+				Desc: "two URL-attribute contexts with symbolic static prefixes (and differing rel): equal mangled names => equal sanitizer chains"},
+		},
+		Probes: []ProbeSpec{
+			{Pkg: "template", Name: "vProbe_C02_url2", NArgs: 2, Alphabet: "javscriptJAVSCRIPT:/?#& x1", MaxLen: 8, N: 1500, Extra: []string{"java", "script:alert(1)", "javascript:", "JAVA", "SCRIPT:", " java", "/x"}},
+			{Pkg: "template", Name: "vProbe_C02_mangle", NArgs: 3, Alphabet: "ahreflinkmgscpt/?x", MaxLen: 6, N: 300, Extra: []string{"a", "href", "link", "img", "src", "/p?"}},
+		},
+		Functions: []string{"template.sanitizerForContext", "template.sanitizersForAttributeValue", "template.sanitizationContextForAttrVal", "template.sanitizerForElementContent", "template.mangle (with the generated state/delim String methods)",
+			"the sixteen run-time sanitizers", "safehtml.URLSanitized", "safehtmlutil.NormalizeURL", "template.sanitizeHTMLComment"},
+		Bounds: map[string]string{
+			"quick":    "names 0..8 bytes with 1 byte of data; URL data: one action 0..4 ASCII bytes in 6 contexts; two actions: pieces over scheme characters up to 7+8 bytes (a/href), arbitrary ASCII pieces up to 3+3; mangle: static prefixes 0..2 bytes each",
+			"thorough": "names 0..12, data 0..3; one action 0..7 bytes; two actions: scheme characters up to 11+11 with total <= 13 in 6 contexts, arbitrary ASCII up to 4+7; mangle: prefixes 0..3",
+		},
+		Outside: []string{"three or more actions in one attribute (the context is unchanged by an action, so action k is chosen like action 2: argued, not checked)", "actions separated by static text (covered for the prefix part by C14)",
+			"loops and called templates beyond the mangle obligation", "schemes other than javascript", "URL-bearing attributes absent from policy/code_contexts.json", "the srcset clause is C12's",
+			"decoding of the emitted attribute value is linked to the pre-escape value by C10's round trip (argument)"},
+		Intrinsics: []string{"strings.Title (concrete)", "safehtmlutil.Indirect / Stringify", "map lookups with symbolic keys"},
+	})
 }
